@@ -74,6 +74,9 @@ MUTANTS = [
     ("C05", "DependentLinesTables", "line/edge/gfa2/gfa2.py", 'DEPENDENT_LINES = ["paths", "sets"]', 'DEPENDENT_LINES = ["sets"]'),
     ("C12", "PathInitializeLinks", "line/group/path/references.py", "            not l.is_compatible_direct(from_segment, to_segment, cigar):", "            True:"),
     ("C12", "IsReplacedByComplement", "line/common/update_references.py", "      return not oldref.is_same(newref)", "      return True"),
+    ("C09", "Gfa1EdgesWithoutId", "gfa.py", "    return ([l for l in self.dovetails + self.containments \\", "    return ([l for l in self.dovetails \\"),
+    ("C10", "Gfa1EdgesWithoutId", "gfa.py", '            {rt: dict(self._records[rt]) for rt in ["L", "C"]})', '            {rt: self._records[rt] for rt in ["L", "C"]})'),
+    ("C10", "Gfa1EdgesWithoutId", "gfa.py", '               if l.get("ID") is None], self._max_int_name,', '               if l.get("ID") is not None], self._max_int_name,'),
     ("C10", "TakeBackAssignedIds", "gfa.py", "    self._max_int_name = max_int_name", "    pass"),
     ("C10", "TakeBackAssignedIds", "gfa.py", "    for rt in records:\n      self._records[rt] = records[rt]", "    for rt in records:\n      self._records[rt] = records[\"L\"]"),
     ("C10", "TakeBackAssignedIds", "gfa.py", '      if l.is_connected() and l.get("ID") is not None:', '      if l.get("ID") is not None:'),
